@@ -78,9 +78,9 @@ Fixpoint every2 {A} (l : list A) : list A :=
 Definition poisson_grid (N : nat) (ep : Qc) : list Qc :=
   let dx := (ep / zq (Z.of_nat N))%Qc in
   map (fun i => (dx + zq (Z.of_nat i) * ((ep - dx) / zq (Z.of_nat N)))%Qc) (seq 0 N).
-Inductive psource := SrcOne | SrcLin | SrcQuad.      (* 1 ; 2x+1 ; 4x^2  (the harness's named sources) *)
+Inductive psource := SrcOne | SrcLin | SrcQuad | SrcZero.      (* 1 ; 2x+1 ; 4x^2 ; 0  (the harness's named sources) *)
 Definition src_eval (s : psource) (x : Qc) : Qc :=
-  match s with SrcOne => 1%Qc | SrcLin => (zq 2 * x + 1)%Qc | SrcQuad => (zq 4 * x * x)%Qc end.
+  match s with SrcOne => 1%Qc | SrcLin => (zq 2 * x + 1)%Qc | SrcQuad => (zq 4 * x * x)%Qc | SrcZero => 0%Qc end.
 Definition poisson_rhs (s : psource) (N : nat) (ep : Qc) : list Qc := map (src_eval s) (poisson_grid N ep).
 Definition poisson_lhs (N : nat) (ep : Qc) (kappa u : list Qc) : list Qc :=
   let dx := (ep / zq (Z.of_nat N))%Qc in
@@ -174,3 +174,20 @@ Definition check_data_gaussian_rel tol s exact z obs := qcl_rclose tol obs (data
 Definition check_data_snr_rel tol (snr sigma : Qc) exact z obs :=
   Qle_bool 0 (this sigma) && qc_rclose tol (sigma * sigma)%Qc (snr_sigma2 snr exact)
   && qcl_rclose tol obs (data_snr sigma exact z).
+
+(* ---------------- constructor arguments: a default is applied ONLY when the argument is omitted (None) ---------------- *)
+Definition with_default {A : Type} (supplied : option A) (default : A) : A :=
+  match supplied with Some v => v | None => default end.
+(* WangCubic(noise_std=1, prior=None, data=None): `if data is None: data = 1` *)
+Record cubic_args := mkCubicArgs { ca_noise_std : option Qc; ca_data : option Qc }.
+Record cubic_problem := mkCubicProblem { cp_data : Qc; cp_cov : Qc }.
+Definition cubic_construct (a : cubic_args) : cubic_problem :=
+  mkCubicProblem (with_default (ca_data a) 1%Qc) (let s := with_default (ca_noise_std a) 1%Qc in (s * s)%Qc).
+Definition check_cubic_args (a : cubic_args) (obs_data obs_lik_data obs_cov : Qc) : bool :=
+  let p := cubic_construct a in
+  qc_eqb obs_data (cp_data p) && qc_eqb obs_lik_data (cp_data p) && qc_eqb obs_cov (cp_cov p).
+(* Deconvolution1D/2D noise_std (defaults 0.01 / 0.0036): likelihood covariance = (supplied or default)^2 *)
+Definition check_default_sq (tol : Q) (supplied : option Qc) (default obs_cov : Qc) : bool :=
+  let s := with_default supplied default in qc_rclose tol obs_cov (s * s)%Qc.
+Definition check_default (tol : Q) (supplied : option Qc) (default obs : Qc) : bool :=
+  qc_rclose tol obs (with_default supplied default).
